@@ -185,4 +185,120 @@ theorem histFueled_ok (g : Bool) : ∀ (ops : List (Spec × Nat × Op)) (st : St
     exact ⟨hg, hnf, histFueled_ok g rest _
       (fun T hT => Op.run_wf S fuel st op (h S hg) hnf T (by rw [hT, hg])) hr⟩
 
+/-! ## the global repository only grows at its end -/
+
+theorem loadMain_prefix (S : Spec) (fuel : Nat) (st : St) (f : File) (hg : S.glob = true) (hwf : WF st)
+    (hnf : (loadMain S fuel st f).2.1 ≠ .fuel) : ∃ N, (loadMain S fuel st f).1.all = st.all ++ N := by
+  have hb := base_of_glob S st hg
+  cases hl : loadMain S fuel st f with
+  | mk st' rj =>
+    obtain ⟨r, j⟩ := rj
+    rw [hl] at hnf
+    cases r with
+    | ok =>
+      obtain ⟨N, hN, _⟩ := (loadMain_ok S fuel st f (hwf.base S) hl).invW.split
+      rw [hb] at hN
+      exact ⟨N, hN⟩
+    | fail k =>
+      obtain ⟨_, hall, _⟩ := loadMain_fail S fuel st f (hwf.base S) hl
+      rw [hb] at hall
+      exact ⟨[], by simp [hall hg]⟩
+    | fuel => exact absurd rfl hnf
+
+theorem loadStr_prefix (S : Spec) (fuel : Nat) (st : St) (a : File) (hg : S.glob = true) (hwf : WF st)
+    (ha : a ∉ (base S st).all.keys) (hnf : (loadStr S fuel st a).2.1 ≠ .fuel) :
+    ∃ N, (loadStr S fuel st a).1.all = st.all ++ N := by
+  have hb := base_of_glob S st hg
+  cases hl : loadStr S fuel st a with
+  | mk st' rj =>
+    obtain ⟨r, j⟩ := rj
+    rw [hl] at hnf
+    cases r with
+    | ok =>
+      obtain ⟨N, hN, _⟩ := (loadStr_ok S fuel st a (hwf.base S) ha hl).invW.split
+      rw [hb] at hN
+      exact ⟨N, hN⟩
+    | fail k =>
+      obtain ⟨_, hall, _⟩ := loadStr_fail S fuel st a (hwf.base S) ha hl
+      rw [hb] at hall
+      exact ⟨[], by simp [hall hg]⟩
+    | fuel => exact absurd rfl hnf
+
+theorem preload_prefix (S : Spec) (hg : S.glob = true) (fuel : Nat) :
+    ∀ (calls : List (Option File)) (st : St), WF st → (Repo.preload S fuel st calls).2 ≠ .fuel →
+      ∃ N, (Repo.preload S fuel st calls).1.all = st.all ++ N := by
+  intro calls
+  induction calls with
+  | nil => intro st _ _; exact ⟨[], by simp [Repo.preload]⟩
+  | cons c cs ih =>
+    intro st hwf hnf
+    cases c with
+    | none => exact ⟨[], by simp [Repo.preload]⟩
+    | some g =>
+      cases hhas : st.all.has g with
+      | true =>
+        rw [preload_cons_cached S fuel st g cs hhas] at hnf ⊢
+        exact ih st hwf hnf
+      | false =>
+        cases hl : loadMain S fuel st g with
+        | mk st1 rj =>
+          obtain ⟨r1, j1⟩ := rj
+          have hnf1 : (loadMain S fuel st g).2.1 ≠ .fuel := by
+            intro h
+            apply hnf
+            rw [hl] at h
+            simp only at h
+            subst h
+            simp [Repo.preload, hhas, hl]
+          obtain ⟨N1, hN1⟩ := loadMain_prefix S fuel st g hg hwf hnf1
+          have hw1 := loadMain_wf S fuel st g hg hwf hnf1
+          rw [hl] at hN1 hw1
+          cases r1 with
+          | ok =>
+            rw [preload_cons_ok S fuel st st1 g j1 cs hhas hl] at hnf ⊢
+            obtain ⟨N2, hN2⟩ := ih st1 hw1 hnf
+            exact ⟨N1 ++ N2, by rw [hN2, hN1, List.append_assoc]⟩
+          | fail k =>
+            have : Repo.preload S fuel st (some g :: cs) = (st1, .fail k) := by simp [Repo.preload, hhas, hl]
+            rw [this]; exact ⟨N1, hN1⟩
+          | fuel => exact absurd (by rw [hl]) hnf1
+
+theorem Op.run_prefix (S : Spec) (fuel : Nat) (st : St) (op : Op) (hg : S.glob = true) (hwf : WF st)
+    (hnf : (op.run S fuel st).2.1 ≠ .fuel) : ∃ N, (op.run S fuel st).1.all = st.all ++ N := by
+  have hb := base_of_glob S st hg
+  cases op with
+  | file f => exact loadMain_prefix S fuel st f hg hwf hnf
+  | str a0 => exact loadStr_prefix S fuel st _ hg hwf (by rw [base_all_eq]; exact anonKey_fresh a0 _) hnf
+  | preload calls =>
+    have hnf' : (Repo.preload { S with glob := true } fuel (base S st) calls).2 ≠ .fuel := hnf
+    show ∃ N, (Repo.preload { S with glob := true } fuel (base S st) calls).1.all = st.all ++ N
+    rw [hb] at hnf' ⊢
+    exact preload_prefix _ rfl fuel calls st hwf hnf'
+
+theorem runOps_prefix : ∀ (ops : List (Spec × Nat × Op)) (st : St), WF st → HistOK true ops st →
+    ∃ N, (runOps ops st).all = st.all ++ N
+  | [], st, _, _ => ⟨[], by simp [runOps]⟩
+  | (S, fuel, op) :: rest, st, hwf, hh => by
+    obtain ⟨hg, hnf, hr⟩ := hh
+    obtain ⟨N1, hN1⟩ := Op.run_prefix S fuel st op hg hwf hnf
+    have hw1 : WF (op.run S fuel st).1 := by
+      have := Op.run_wf S fuel st op (hwf.base S) hnf S rfl
+      rw [base_of_glob S _ hg] at this
+      exact this
+    obtain ⟨N2, hN2⟩ := runOps_prefix rest _ hw1 hr
+    exact ⟨N1 ++ N2, by show (runOps rest (op.run S fuel st).1).all = _; rw [hN2, hN1, List.append_assoc]⟩
+
+theorem runOps_append : ∀ (ops1 ops2 : List (Spec × Nat × Op)) (st : St),
+    runOps (ops1 ++ ops2) st = runOps ops2 (runOps ops1 st)
+  | [], _, _ => rfl
+  | _ :: rest, ops2, _ => runOps_append rest ops2 _
+
+theorem histOK_append (g : Bool) : ∀ (ops1 ops2 : List (Spec × Nat × Op)) (st : St),
+    HistOK g (ops1 ++ ops2) st → HistOK g ops1 st ∧ HistOK g ops2 (runOps ops1 st)
+  | [], _, _, h => ⟨trivial, h⟩
+  | (S, fuel, op) :: rest, ops2, st, h => by
+    obtain ⟨hg, hnf, hr⟩ := h
+    obtain ⟨h1, h2⟩ := histOK_append g rest ops2 _ hr
+    exact ⟨⟨hg, hnf, h1⟩, h2⟩
+
 end Repo
